@@ -10,11 +10,14 @@
   The theorems are stated on parsed statements (`Asm.Stmt`, what `parse_simple` returns): "every
   register / immediate / base+offset form and every label-operand form" = every constructor of
   `Stmt`; the step from text to statement is `Asm.parseSimple` (the assembler's own statement
-  parser, compared with the implementation on every run by C05 and by C15's sessions).
+  parser, compared with the implementation on every run by C05 and by C15's sessions); that this
+  step never panics, whatever the text, is `parseSimple_no_panic_holds` (lemmas in
+  `Lace/Proofs/AsmSimple.lean`).
 -/
 import Lace.Proofs.EvalLemmas
 import Lace.Proofs.EvalSpec
 import Lace.Model.AsmSource
+import Lace.Proofs.AsmSimple
 namespace Lace.C15
 open Lace Lace.Asm Lace.Spec Lace.ISA Lace.Dbg
 
@@ -331,8 +334,8 @@ theorem refused_noop (env : Env) (d : Dbg) (m : Machine) (w : World) (text : Lis
 
 /-- **C15, refusal clause.**  BR*, RTI, HALT, unknown trap vectors, operands naming no label or
 out of reach, and every text that is not exactly one well-formed instruction: `eval` returns a
-refusal (which `refused_noop` shows to be without effect) — provided the statement parser itself
-does not panic on the text (`parseSimple_no_panic`, below). -/
+refusal (which `refused_noop` shows to be without effect); the statement parser itself never
+panics on the text (`parseSimple_no_panic_holds`, below). -/
 theorem eval_refusals_noop (so mi : Bool) (tbl : SymTab) (orig : Word) (m : Machine) (w : World)
     (text : List Char) :
     -- not exactly one well-formed instruction
@@ -395,13 +398,49 @@ theorem eval_never_ends_session_partial
 theorem eval_never_ends_session_holds : eval_never_ends_session :=
   eval_never_ends_session_partial C15Spec.execAbs_ends
 
-/-- What is NOT proved here: that the assembler's statement parser never panics on any text
-(no `unreachable!`, no fuel exhaustion) — C05 proves this for the whole-program parser
-(`assemble_no_panic`); the statement parser shares the lexer and `parse_instr`, but lets every
-directive token through, which the invariants of `Proofs/AsmParse.lean` (`TokIn`) do not cover. -/
+/-- **The statement parser never panics** (proved below: `parseSimple_no_panic_holds`): for every
+text, feature setting, symbol table and line counter, `parse_simple` returns a statement or a
+diagnostic — no `unreachable!`, no slicing panic, no exhausted fuel (`length text + 1` lexer rounds
+suffice).  C05 proves the same of the whole-program parser (`assemble_no_panic`); the statement
+parser shares the lexer and `parse_instr`, but lets every directive token through, so the
+invariant here is weaker than C05's `TokIn` (`Proofs/AsmSimple.lean`: `TokSimple`, and the primed
+lemmas of `Proofs/AsmParse.lean`). -/
 def parseSimple_no_panic : Prop :=
   ∀ (so : Bool) (tbl : SymTab) (line : Nat) (text : List Char) (site : String),
     parseSimple (some so) tbl line text ≠ .panic site
+
+/-- `parseSimple_no_panic`, proved. -/
+theorem parseSimple_no_panic_holds : parseSimple_no_panic := by
+  intro so tbl line text site h
+  have := parseSimple_ok so tbl line text
+  rw [h] at this
+  exact this
+
+/-- … and a diagnostic of the statement parser always carries a label, which lies inside the text. -/
+theorem parseSimple_diag_inside (so : Bool) (tbl : SymTab) (line : Nat) (text : List Char)
+    (k : DiagKind) (sp : Option (Nat × Nat))
+    (h : parseSimple (some so) tbl line text = .diag k sp) :
+    ∃ o l, sp = some (o, l) ∧ o + l ≤ utf8Len text := by
+  have := parseSimple_ok so tbl line text
+  rw [h] at this
+  cases sp with
+  | none => exact this.elim
+  | some p => exact ⟨p.1, p.2, rfl, this⟩
+
+/-- With `parseSimple_no_panic_holds`, `eval` of ANY text never panics in the parser: it is a
+refusal or the specification's verdict on a parsed statement. -/
+theorem eval_text_total (so mi : Bool) (tbl : SymTab) (orig : Word) (m : Machine) (w : World)
+    (text : List Char) :
+    evalInner so mi tbl orig m w text = .refused evalMsg ∨
+    ∃ stmt, parseSimple (some so) tbl ((evalLine orig m + 1) % 65536) text = .ok stmt ∧
+      evalInner so mi tbl orig m w text =
+        (if isRawWord stmt then .panic "unreachable: tried to simulate raw word"
+         else evalSpec so mi (resolveIn tbl orig) m w stmt) := by
+  rw [eval_text_eq_spec]
+  cases hp : parseSimple (some so) tbl ((evalLine orig m + 1) % 65536) text with
+  | diag k sp => exact Or.inl rfl
+  | panic s => exact absurd hp (parseSimple_no_panic_holds so tbl _ text s)
+  | ok stmt => exact Or.inr ⟨stmt, rfl, rfl⟩
 
 /-! ### Non-vacuity -/
 
